@@ -761,7 +761,10 @@ def check_affine_ops(ctx: Ctx, view: View) -> None:
     upd = ctx.index.method(DSF, "DesignSpace", UPDATE_NORM)
     con = cname(DSF, "DesignSpace", UPDATE_NORM)
     nf = rules.assigns_to_self(upd, "_norm_factor")
-    ctx.need(len(nf) == 1, "recomputation: _norm_factor assignment not found")
+    ctx.need(len(nf) >= 1, "recomputation: _norm_factor assignment not found")
+    if len(nf) > 1:
+        # a second definition overrides `ub - lb`: the forward factor is then no longer the range
+        ctx.ob("2.7-factor", con, False, f"_norm_factor is re-assigned (`{norm_stmt(nf[-1], 70)}`): the factor used by the affine maps must be upper bounds - lower bounds (only its INVERSE may avoid the division by zero for equal bounds)", node=nf[-1], stmt="_norm_factor defined once")
     v = nf[0].value
     ok = isinstance(v, ast.BinOp) and isinstance(v.op, ast.Sub) and attr_is(v.left, "__upper_bounds_array") and attr_is(v.right, "__lower_bounds_array")
     ctx.ob("2.7-factor", con, ok, "_norm_factor must be upper bounds - lower bounds", node=nf[0])
